@@ -41,3 +41,12 @@ func settle() {
 	time.Sleep(time.Millisecond)
 	_ = sim.Quiesce()
 }
+
+// mustCid parses a CID string that the harness itself produced.
+func mustCid(s string) cid.Cid {
+	c, err := cid.Decode(s)
+	if err != nil {
+		panic("harness: bad cid " + s)
+	}
+	return c
+}
